@@ -36,6 +36,7 @@ def RqInv : Nat := 2098852427511700107200280982444808757861973078560031433425378
 structure Cur where
   rest : Bytes
   pos : Nat
+deriving DecidableEq, Repr
 
 /-- `seek(SeekFrom::Start(p))` -/
 def Cur.at (data : Bytes) (p : Nat) : Cur := ⟨data.drop p, p⟩
